@@ -446,6 +446,65 @@ fn deep_pipeline(quick: bool) -> Vec<Scen> {
     v
 }
 
+
+/// a large command followed by many small ones in the same burst: whatever the reader does to its
+/// buffer after the large one (shrinking, compacting, releasing) must not lose what is behind it
+fn large_then_many(quick: bool) -> Vec<Scen> {
+    let sizes: Vec<usize> = if quick { vec![70_000, 150_000, 600_000, 1_100_000] } else { vec![5_000, 20_000, 70_000, 100_001, 150_000, 300_000, 600_000, 1_100_000, 3_000_000, 9_000_000] };
+    let mut v = Vec::new();
+    for size in sizes {
+        for n in [40usize, 1000] {
+            for pre in [false, true] {
+                let mut cmds = Vec::new();
+                let mut exp = vec![auth_cb()];
+                if pre {
+                    // something small first, so that the large command does not start the buffer
+                    let (c, cb) = small_cmd(COM_STMT_PREPARE, b"pre");
+                    cmds.push(c);
+                    exp.push(cb);
+                }
+                let (c, cb) = small_cmd(COM_QUERY, &ascii_pattern(size - 1, 9));
+                cmds.push(c);
+                exp.push(cb);
+                for i in 0..n {
+                    let text = format!("f{}-{}", i, "y".repeat(i % 29));
+                    let (c, cb) = small_cmd(KINDS[i % 3], text.as_bytes());
+                    cmds.push(c);
+                    exp.push(cb);
+                }
+                let conv = Conv::new(cmds);
+                let mut sc = Scen::new(format!("{}query of {} payload bytes + {} small commands in one burst", if pre { "a small command + " } else { "" }, size, n), conv, exp);
+                let big_idx = if pre { 1 } else { 0 };
+                let big_end = sc.ends[big_idx + 1];
+                let mut cands: Vec<usize> = vec![big_end - 5, big_end - 1, big_end, big_end + 1, big_end + 3, big_end + 4, big_end + 5];
+                for h in sc.headers.iter().filter(|h| **h > big_end).take(3) {
+                    cands.extend([*h, *h + 2, *h + 4, *h + 6]);
+                }
+                for t in [big_end + 4096, big_end + 10_000, sc.stream.len() - 7] {
+                    if t < sc.stream.len() {
+                        cands.push(t);
+                    }
+                }
+                cands.retain(|c| *c > 0 && *c < sc.stream.len());
+                cands.sort();
+                cands.dedup();
+                let mut sets: Vec<Vec<usize>> = vec![vec![]];
+                sets.extend(cands.iter().map(|c| vec![*c]));
+                if !quick {
+                    for (i, a) in cands.iter().enumerate() {
+                        for b in cands.iter().skip(i + 1) {
+                            sets.push(vec![*a, *b]);
+                        }
+                    }
+                }
+                sc.sets = Some(sets);
+                v.push(sc);
+            }
+        }
+    }
+    v
+}
+
 pub fn build(quick: bool) -> Check {
     let small = ChunkFamily::new("small-all-compositions", small_sequences(if quick { 17 } else { 23 }, if quick { 3 } else { 4 }));
     let phase = ChunkFamily::new("handshake-phase-boundary", phase_boundary(quick));
@@ -454,10 +513,11 @@ pub fn build(quick: bool) -> Check {
     frag.threads = Some(8);
     let sizes = ChunkFamily::new("payload-size-classes", size_classes(quick));
     let deep = ChunkFamily::new("deep-pipeline", deep_pipeline(quick));
+    let ltm = ChunkFamily::new("large-then-many", large_then_many(quick));
     Check {
         id: "C01",
         level: "model_checking",
-        rule: "every execution is one complete run of the real run_on over a scripted transport; schedules are sets of cut positions no read() may cross (all 2^n sets for streams of <= 17 (quick) / 23 (thorough) command bytes; all sets of <= 2-3 cuts for longer streams; <= 1-2 cuts around fragment headers for 16-32 MiB payloads; single-packet payloads around 2^15, 2^16, 2^17, 2^20 and up to 3 MB with <= 1-2 cuts; 300/1200 pipelined commands with a cut at (every fifth /) every position and under uniform read sizes 1..4097). Non-trivial = some read ends strictly inside a packet header or one read spans two messages.".into(),
+        rule: "every execution is one complete run of the real run_on over a scripted transport; schedules are sets of cut positions no read() may cross (all 2^n sets for streams of <= 17 (quick) / 23 (thorough) command bytes; all sets of <= 2-3 cuts for longer streams; <= 1-2 cuts around fragment headers for 16-32 MiB payloads; single-packet payloads around 2^15, 2^16, 2^17, 2^20 and up to 3 MB with <= 1-2 cuts; 300/1200 pipelined commands with a cut at (every fifth /) every position and under uniform read sizes 1..4097; a command of 70 KB..1.1 MB (thorough 5 KB..9 MB) followed by 40 / 1000 small commands in the same burst with <= 1 (thorough 2) cuts around the end of the large command and the next headers). Non-trivial = some read ends strictly inside a packet header or one read spans two messages.".into(),
         assumptions: vec![
             "1-byte reads over multi-megabyte payloads are not run (the implementation re-parses per read); they are covered exhaustively at small sizes".into(),
             "the oracle is the shim's callback log plus a strict client-side decode of all replies".into(),
@@ -465,7 +525,7 @@ pub fn build(quick: bool) -> Check {
         bounds: json!({"small_max_command_bytes": if quick {17} else {23}, "phase_max_cuts": if quick {2} else {3}, "threshold_max_cuts": 2, "fragment_max_cuts": if quick {1} else {2}}),
         exhaustive: true,
         caps_hit: vec![],
-        families: vec![Box::new(small), Box::new(phase), Box::new(thr), Box::new(frag), Box::new(sizes), Box::new(deep)],
+        families: vec![Box::new(small), Box::new(phase), Box::new(thr), Box::new(frag), Box::new(sizes), Box::new(deep), Box::new(ltm)],
         required: vec!["reads_ending_inside_a_header", "reads_spanning_two_messages", "executions_with_more_than_3_reads", "uniform_read_sizes"],
     }
 }
